@@ -462,10 +462,34 @@ def run_history(acc, sch, w, mod, tname, tags, rng, length, ops=None):
                     'final_state': C.jsonable(model.state)})
 
 
+CANARY_SCHEMA = [S.Struct('CX', [S.Member('n', 'u8'), S.Member('a', 'u16', S.EXT, sizer='n'),
+                                  S.Member('f', 'u8', S.FIXED, 3), S.Member('b', 'byte', S.DYNAMIC)])]
+CANARY_HISTORIES = [
+    [{'path': [], 'op': 'extend', 'member': 'a', 'args': [[0] * 300]}],
+    [{'path': [], 'op': 'setslice', 'member': 'f', 'args': [(1, 3, None), A.Gen([7, 8])]}],
+    [{'path': [], 'op': 'append', 'member': 'a', 'args': [5]}],
+]
+
+
+def run_canaries(acc, wd):
+    """Scripted histories that reach the recorded known findings on every run while they persist."""
+    sch = S.Schema(CANARY_SCHEMA)
+    try:
+        mod, nodes = pyrt.compile_python(sch.to_prophy(), wd)
+    except pyrt.CompileFailed as e:
+        acc.prereq({'stage': e.stage, 'error': str(e)[:300]})
+        return
+    import random
+    for ops in CANARY_HISTORIES:
+        run_history(acc, sch, W.Wire(sch), mod, 'CX', ['canary'], random.Random(0), len(ops), ops)
+
+
 def run_shard(spec):
     import random
     acc = Acc()
     with C.Workdir() as wd:
+        if spec.get('seed', 0) % 1000 == 0 and spec['kind'] != 'replay':
+            run_canaries(acc, wd)
         for sch, names, tagmap, mod, nodes, rng in C.iter_py_schemas(spec, acc, wd):
             w = W.Wire(sch)
             if spec['kind'] == 'seq' and spec['nrand'] <= 1:
